@@ -31,8 +31,9 @@ two tables (`polKeys`, `epKeys`).
 UNMODELLED (named, see Props/C01): L3RouteResolver, VXLANResolver (routes / VTEPs),
 service index, wireguard, BGP-peer, live-migration, Istio, config batching,
 encapsulation resolver, profile decoder (service accounts / namespaces), lookup
-caches, host-IP passthrough, `PerformanceHints` force-programming, endpoint computed
-data.  Rule CONTENT is an opaque tag (the harness's content class of the emitted
+caches, the Node / host-metadata half of DataplanePassthru, `PerformanceHints`
+force-programming, endpoint computed data.  MODELLED as a generic "latest value per key"
+pass-through (`Upd.passthru`): DataplanePassthru for IP pools (and any node of that shape).  Rule CONTENT is an opaque tag (the harness's content class of the emitted
 proto) plus what the RuleScanner reads: selectors, named ports, protocol.
 
 Core Lean only.
@@ -97,6 +98,9 @@ inductive Upd
   | profRules (pid : String) (v : Option RulesIn)
   | tier (name : String) (v : Option (Option Int × String))
   | policy (nid : Nat) (key : C02.PolicyKey) (v : Option PolVal)
+  /-- a resource handled by a pure "latest value per key" pass-through node (`DataplanePassthru` for IP pools
+  / Kubernetes services, …): category, key, content class (`none` = deleted or invalid) -/
+  | passthru (c : C02.GenCat) (key : String) (v : Option String)
   | other
 deriving Repr
 
@@ -419,6 +423,11 @@ def Graph.arcPolicy (H : IdFn) (g : Graph) (nid : Nat) (v : Option PolVal) : Gra
     let g := { g with allPolicies := C02.mdel nid g.allPolicies }
     g.lblStep H (C07.deleteSelector g.lbl nid)
 
+/-- the EventSequencer call a pass-through node makes: `On<Kind>Update(key, value)` / `On<Kind>Remove(key)` -/
+def passthruCall (c : C02.GenCat) (key : String) : Option String → C02.Call
+  | some t => .genUpdate c key t
+  | none => .genRemove c key
+
 /-- `AllUpdDispatcher.OnUpdate` for one (already validated) update. -/
 def Graph.step (H : IdFn) (g : Graph) : Upd → Graph
   | .endpoint nid key isLocal v =>
@@ -433,6 +442,7 @@ def Graph.step (H : IdFn) (g : Graph) : Upd → Graph
     let g := { g with polKeys := C02.mset nid key g.polKeys }
     -- ARC, then PolicyResolver
     (g.arcPolicy H nid v).resStep (.policy key (v.map (·.pmeta)))
+  | .passthru c key v => g.emit [passthruCall c key v]
   | .other => g
 
 /-- `OnStatusUpdated(InSync)`. -/
@@ -478,6 +488,8 @@ structure DS where
   profRules : List (String × RulesIn) := []
   tiers : List (String × (Option Int × String)) := []
   pols : List (Nat × (C02.PolicyKey × PolVal)) := []
+  /-- pass-through resources: (category, key) ↦ content class -/
+  gen : List ((C02.GenCat × String) × String) := []
 deriving Repr
 
 def DS.apply (ds : DS) : Upd → DS
@@ -487,6 +499,7 @@ def DS.apply (ds : DS) : Upd → DS
   | .profRules pid v => { ds with profRules := setOrDel pid v ds.profRules }
   | .tier name v => { ds with tiers := setOrDel name v ds.tiers }
   | .policy nid key v => { ds with pols := setOrDel nid (v.map (fun p => (key, p))) ds.pols }
+  | .passthru c key v => { ds with gen := setOrDel (c, key) v ds.gen }
   | .other => ds
 
 /-- the datastore state at the end of a history -/
@@ -582,6 +595,8 @@ structure Fresh where
   profs : List (String × C02.Rules)
   eps : List (C02.EpKey × C02.EpUpd)
   ipsets : List (String × Nat × List String)
+  /-- pass-through objects: the datastore's own table -/
+  gen : List ((C02.GenCat × String) × String)
 deriving Repr
 
 def fresh (H : IdFn) (suppress : Bool) (ds : DS) : Fresh :=
@@ -590,6 +605,7 @@ def fresh (H : IdFn) (suppress : Bool) (ds : DS) : Fresh :=
     eps := ds.localEps.map (fun e =>
       (e.1, ⟨⟨e.2.tag, e.2.profiles⟩, C03.filterTiers ds.matched e.1 ds.sortedTiers⟩))
     ipsets := (ds.activeSets H).map (fun p =>
-      (p.1, (if p.2.proto ≠ C04.protoNone then 1 else 0), (ds.members suppress p.2).map showMember)) }
+      (p.1, (if p.2.proto ≠ C04.protoNone then 1 else 0), (ds.members suppress p.2).map showMember))
+    gen := ds.gen }
 
 end CalicoVerif.C01
